@@ -49,6 +49,8 @@ def cases(tier, seed):
             k.setdefault("z_cn", float(gen.pick(rng, [0.05, 0.12, 0.15, 0.25, 0.33, 0.35, 0.45, 0.55])))
             k.setdefault("z_germ", float(gen.pick(rng, [0.05, 0.12, 0.15, 0.25, 0.35, 0.45])))
             k.setdefault("adj_cn", 1)
+        if i % 6 == 4:
+            gen.low_et0(rng, sp)      # days with a reference ET below 0.1 mm
         out.append({"spec": sp})
     return out
 
